@@ -431,15 +431,19 @@ theorem typedNoPanic (S : Schema) (hS : S.DecodeSafe) : ∀ fuel, TypedNoPanic S
   | 0 => typedNoPanic_zero S
   | fuel + 1 => typedNoPanic_succ S hS fuel (typedNoPanic S hS fuel)
 
-theorem unmarshal_noPanic (S : Schema) (h : S.decodeSafe = true) (d tag : Nat) (bs : Bytes)
-    (hd : d < S.dyns.length) : (unmarshal S d tag bs).NoPanic := by
-  have hS := (S.decodeSafe_iff).1 h
-  have hk := hS.dyn hd
-  have hptr : ∀ k', (S.dyn d).kind = .ptr k' → Kind.leafSafe k' = true :=
-    fun k' h => Kind.leafSafe_ptr (h ▸ hk)
-  have ihK := (typedNoPanic S hS (bs.length + 8)).decK
+theorem unmarshal_noPanic (S : Schema) (h : S.decodeSafe = true) (d tag : Nat) (bs : Bytes) :
+    (unmarshal S d tag bs).NoPanic := by
   unfold unmarshal
-  np_auto
+  by_cases hr : S.dyns.length ≤ d
+  · rw [if_pos hr]; exact Res.noPanic_err _
+  · rw [if_neg hr]
+    have hd : d < S.dyns.length := by omega
+    have hS := (S.decodeSafe_iff).1 h
+    have hk := hS.dyn hd
+    have hptr : ∀ k', (S.dyn d).kind = .ptr k' → Kind.leafSafe k' = true :=
+      fun k' h => Kind.leafSafe_ptr (h ▸ hk)
+    have ihK := (typedNoPanic S hS (decFuel bs.length)).decK
+    np_auto
 
 /-! ### C05: the encoder's field loop, the version cell -/
 
@@ -1375,6 +1379,15 @@ def Schema.isOpaquePayloadDyn (S : Schema) (d : Nat) : Bool :=
       decide ((S.structDef u).custom = Cust.unknownPayload)
   | _ => false
 
+theorem Schema.dyn_lt_of_kind {S : Schema} {d : Nat} (h : (S.dyn d).kind ≠ .unsupported) :
+    d < S.dyns.length := by
+  apply Decidable.byContradiction
+  intro hn
+  apply h
+  unfold Schema.dyn
+  rw [List.getD_eq_getElem?_getD, List.getElem?_eq_none (by omega)]
+  rfl
+
 theorem unmarshal_opaque_enc (S : Schema) (d : Nat) (hd : S.isOpaquePayloadDyn d = true)
     (tag : Nat) (its : List Item) (h : (Item.struct tag its).InRange) :
     unmarshal S d tag (enc (.struct tag its)) = .ok (.ptr (some (.struct [.anyStruct its]))) := by
@@ -1386,11 +1399,14 @@ theorem unmarshal_opaque_enc (S : Schema) (d : Nat) (hd : S.isOpaquePayloadDyn d
     have htag : tag ≠ 0 := by rw [Item.InRange] at h; omega
     have hsz := size_le_length_aux (.struct tag its)
     rw [Item.size] at hsz
+    have hdr : ¬ S.dyns.length ≤ d := by
+      have := Schema.dyn_lt_of_kind (S := S) (d := d) (by rw [hk]; exact fun e => nomatch e)
+      omega
     unfold unmarshal
-    rw [Cur.start_enc _ h]
+    rw [if_neg hdr, Cur.start_enc _ h]
     simp only [Res.ok_bind, hk, if_neg htag]
-    rw [show (enc (Item.struct tag its)).length + 8 = ((enc (Item.struct tag its)).length + 6 + 1) + 1
-      from rfl, decK]
+    rw [show decFuel (enc (Item.struct tag its)).length
+      = ((enc (Item.struct tag its)).length + 2999998 + 1) + 1 from by unfold decFuel; omega, decK]
     simp only [h1, if_true, h3]
     rw [decCustom_unknownPayload_enc S tag its h _ (by omega)]
     rfl
